@@ -759,8 +759,9 @@ class QuicConnection:
 
         # Start with our local timeout.
         idle_timeout = self._configuration.idle_timeout
-        if self._remote_max_idle_timeout is not None:
-            # Our peer has a preference too, so pick the smaller timeout.
+        if self._remote_max_idle_timeout:
+            # Our peer has a preference too, so pick the smaller timeout
+            # (a value of zero means that it has none).
             idle_timeout = min(idle_timeout, self._remote_max_idle_timeout)
         # But not too small!
         return max(idle_timeout, 3 * self._loss.get_probe_timeout())
